@@ -419,10 +419,12 @@ func (c *Conn) fill(i int) (err error) {
 			}
 		}
 		if err != nil {
-			// The error is reported once the bytes that arrived before it have been
-			// handed out, whether it came with the last of them (n > 0, as crypto/tls
-			// reports a close_notify in the same segment) or by a read of its own.
-			if c.Len() > 0 {
+			// The end of the stream is reported once the bytes that arrived before it
+			// have been handed out, whether it came with the last of them (n > 0, as
+			// crypto/tls reports a close_notify in the same segment) or by a read of
+			// its own. Other errors (a read timeout, a reset) are reported at once, as
+			// before: the readers tell them apart by the empty result.
+			if err == io.EOF && c.Len() > 0 {
 				c.err = err
 				return nil
 			}
